@@ -26,7 +26,7 @@ normalize_whitespace = \
                        xmlns:xsl="http://www.w3.org/1999/XSL/Transform"
                        xmlns:xsi="http://www.w3.org/2001/XMLSchema-instance"
                        >
-           <xsl:output omit-xml-declaration="no" indent="yes"/>
+           <xsl:output method="xml" omit-xml-declaration="no" indent="yes"/>
 
            <!-- Template to copy nodes and apply templates to attributes and child nodes -->
            <xsl:template match="@*|node()">
